@@ -465,7 +465,7 @@ def model_runs(check, scratch, which):
                 runs.append((scen, th, a0, False, invs))
     for k, (scen, th, a0, faults, invs) in enumerate(runs):
         cfg = tlc.write_cfg(os.path.join(d, 'Retrieval-%d.cfg' % k), spec='Spec', invariants=invs, constants=dict(
-            Threads=th, Kind=tlc.Subst(scen), Attrs0=a0, Faults=faults, EnterSafe=True, GuardMode='threadlocal'))
+            Threads=th, Kind=tlc.Subst(scen), Attrs0=a0, Faults=faults, EnterSafe=True, GuardMode='threadlocal', SaveMode='raw', Descr={'S'}))
         r = tlc.run_tlc('Retrieval', cfg, scratch, workers=4, timeout=900)
         name = 'Retrieval(%s, attrs0=%s, faults=%s)' % (scen, ''.join(sorted(a0)), faults)
         check.add_model_run(name, r)
@@ -474,7 +474,7 @@ def model_runs(check, scratch, which):
     if which == 'threads':
         # documented design-level finding: the window race breaks C17_Sequential for retrievers / observers (known finding window-race)
         cfg = tlc.write_cfg(os.path.join(d, 'Retrieval-race.cfg'), spec='Spec', invariants=['C17_Sequential'], constants=dict(
-            Threads={1, 2}, Kind=tlc.Subst('Scen_RI'), Attrs0={'W'}, Faults=False, EnterSafe=True, GuardMode='threadlocal'))
+            Threads={1, 2}, Kind=tlc.Subst('Scen_RI'), Attrs0={'W'}, Faults=False, EnterSafe=True, GuardMode='threadlocal', SaveMode='raw', Descr={'S'}))
         r = tlc.run_tlc('Retrieval', cfg, scratch, workers=4, timeout=900)
         check.legs['Retrieval(Scen_RI): C17_Sequential (window race, known finding)'] = {'distinct': r.distinct, 'violated': bool(r.invariants_violated)}
         check.cov['states'] += r.distinct
